@@ -18,7 +18,7 @@ def run(tier, seed):
     # its first offender meets Go's randomised map iteration), validated repeatedly in both modes
     multi = os.path.join(wd, "multi.ndjson")
     common.run([vh, "gen-multibad", "-seed", str(seed), "-n", str(12 if quick else 200), "-out", multi])
-    args = ["-seed", seed, "-bases", 3 if quick else 0, "-edits", 25 if quick else 60, "-double", 0.5, "-repeat", 6 if quick else 10]
+    args = ["-seed", seed, "-bases", 3 if quick else 0, "-edits", 12 if quick else 60, "-double", 0.5, "-repeat", 6 if quick else 10]
     # open finding FirstFoundUnresolved: honoured (messages compared up to the reference named) only while its witness still flips
     known = common.Known().devs("C10")
     if "FirstFoundUnresolved" in known:
